@@ -640,6 +640,11 @@ func TestLifecycle(t *testing.T) {
 			})
 			forcedRemote = idx
 			defer func() { forcedRemote = -1 }()
+			// with the transport's delay suspended, whatever was decided before the Unbind is written within moments of it; the loop is not
+			// held up in an earlier slow write (see lingering)
+			rtcpSink.SetFast(true)
+			defer rtcpSink.SetFast(false)
+			time.Sleep(interval / 2) // lets a slow write that is already in progress finish
 			actions["bindRemote"](t)
 			if remotes[idx].bound {
 				actions["unbindRemote"](t)
